@@ -2,6 +2,7 @@ from typing import TYPE_CHECKING
 
 from taskiq.abc.broker import AsyncBroker
 from taskiq.exceptions import NoResultError, TaskRejectedError
+from taskiq.labels import prepare_label
 from taskiq.message import TaskiqMessage
 
 if TYPE_CHECKING:  # pragma: no cover
@@ -30,7 +31,21 @@ class Context:
         requeue_count = int(self.message.labels.get("X-Taskiq-requeue", 0))
         requeue_count += 1
         self.message.labels["X-Taskiq-requeue"] = str(requeue_count)
-        await self.broker.kick(self.broker.formatter.dumps(self.message))
+        # Labels of a received message are already parsed, we have to
+        # prepare them again before sending, as kicker does.
+        labels = {}
+        labels_types = {}
+        for label, label_val in self.message.labels.items():
+            labels[label], labels_types[label] = prepare_label(label_val)
+        message = TaskiqMessage(
+            task_id=self.message.task_id,
+            task_name=self.message.task_name,
+            labels=labels,
+            labels_types=labels_types,
+            args=self.message.args,
+            kwargs=self.message.kwargs,
+        )
+        await self.broker.kick(self.broker.formatter.dumps(message))
         raise NoResultError
 
     def reject(self) -> None:
